@@ -29,3 +29,10 @@ pub fn memchr_model(x: u8, text: &[u8]) -> Option<usize> {
 /// tokio's `read_exact` builds `io::Error::new(UnexpectedEof, "early eof")` (a boxed `dyn Error`, the known CBMC
 /// trap, probe #22); same kind without the box
 pub fn eof_simple() -> std::io::Error { std::io::Error::from(std::io::ErrorKind::UnexpectedEof) }
+
+/// R3b: byte-wise model of `core::slice::memchr::memrchr`
+pub fn memrchr_model(x: u8, text: &[u8]) -> Option<usize> {
+    let mut i = text.len();
+    while i > 0 { i -= 1; if text[i] == x { return Some(i); } }
+    None
+}
